@@ -382,6 +382,13 @@ func (m *Model) CacheFault() {
 	}
 }
 
+// Cleaned: `grog clean` removed the workspace's cache directory (results, blobs, taint markers): nothing can be a hit.
+func (m *Model) Cleaned() {
+	m.Cache = map[string]string{}
+	m.Taint = map[string]bool{}
+	m.EntryDepModes = map[string]map[string]string{}
+}
+
 func SortedKeys(m map[string]bool) []string {
 	var ks []string
 	for k, v := range m {
